@@ -3,6 +3,8 @@ package cache
 // C12: the directory cache is faithful and atomic.
 
 import (
+	"archive/tar"
+	iofs "io/fs"
 	"os"
 
 	"github.com/thought-machine/please/src/core"
@@ -12,7 +14,78 @@ import (
 func init() {
 	vpRegister("vpH_C12_roundtrip", vpH_C12_roundtrip)
 	vpRegister("vpH_C12_crash", vpH_C12_crash)
+	vpRegister("vpH_C12_compressed", vpH_C12_compressed)
+	vpRegister("vpH_C12_stale", vpH_C12_stale)
 }
+
+// vpConcreteTree: the solver picks the shape (file / symlink / directory with
+// up to two entries, recursively) but every name, content and link target is a
+// concrete string: the bytes go through gzip (Huffman coding, CRC-32), which is
+// out of reach for symbolic bytes.
+func vpConcreteTree(tag, path string, depth int) {
+	switch vpChoice(tag+".kind", 3) {
+	case 0:
+		vpMkFile(path, []string{"", "h", "hello world\n"}[vpChoice(tag+".content", 3)], 0o644)
+	case 1:
+		vpMkLink(path, []string{"a", "../x", "b/c"}[vpChoice(tag+".target", 3)])
+	case 2:
+		vpMkDir(path)
+		if depth <= 0 {
+			return
+		}
+		n := vpChoice(tag+".entries", 3)
+		for i := 0; i < n; i++ {
+			vpConcreteTree(tag+".e", path+"/"+[]string{"a", "b"}[i], depth-1)
+		}
+	}
+}
+
+
+// vpH_C12_compressed: the same round trip through the compressed (tar.gz)
+// layout of the directory cache; archive/tar and compress/gzip are interpreted.
+func vpH_C12_compressed() {
+	vpFSReset()
+	vpMkDir("cache")
+	t := core.NewBuildTarget(core.BuildLabel{PackageName: "p", Name: "t"})
+	outs := []string{"o1"}
+	vpConcreteTree("o1", vpOutDir+"/o1", vpBound("depth"))
+	if vpNondetBool("second-output") {
+		outs = append(outs, "o2")
+		vpMkFile(vpOutDir+"/o2", "second", 0o755)
+	}
+	want := vpTreeString(vpOutDir)
+	c := &dirCache{Dir: "cache", Compress: true, added: map[string]uint64{}}
+	c.Store(t, vpKey, outs)
+	vpAssert("store-leaves-outputs-alone", vpStrEq(vpTreeString(vpOutDir), want))
+	vpWipeOutputs()
+	c2 := &dirCache{Dir: "cache", Compress: true, added: map[string]uint64{}}
+	vpAssert("other-key-misses", !c2.Retrieve(t, vpKey2, outs))
+	hit := c2.Retrieve(t, vpKey, outs)
+	vpAssert("stored-key-hits", hit)
+	vpAssert("restored-tree-identical", vpStrEq(vpTreeString(vpOutDir), want))
+}
+
+// vpH_C12_stale: the outputs are not wiped before the retrieve: whatever an
+// earlier build left at the output paths (a file, a link, a directory with
+// other entries) is replaced, not merged into.
+func vpH_C12_stale() {
+	vpFSReset()
+	vpMkDir("cache")
+	t := core.NewBuildTarget(core.BuildLabel{PackageName: "p", Name: "t"})
+	outs := []string{"o1"}
+	vpConcreteTree("o1", vpOutDir+"/o1", vpBound("depth"))
+	want := vpTreeString(vpOutDir)
+	compress := vpNondetBool("compressed-layout")
+	c := &dirCache{Dir: "cache", Compress: compress, added: map[string]uint64{}}
+	c.Store(t, vpKey, outs)
+	// another state of the tree is built over it
+	vpWipeOutputs()
+	vpConcreteTree("stale", vpOutDir+"/o1", vpBound("depth"))
+	hit := (&dirCache{Dir: "cache", Compress: compress, added: map[string]uint64{}}).Retrieve(t, vpKey, outs)
+	vpAssert("stored-key-hits", hit)
+	vpAssert("restored-tree-replaces-what-was-there", vpStrEq(vpTreeString(vpOutDir), want))
+}
+
 
 func vpWalkMode(root string, cb func(name string, mode fs.Mode) error) error {
 	_, _, n, err := vpWalkTo(root, false, 0)
@@ -105,3 +178,6 @@ func vpH_C12_crash() {
 		vpAssert("hit-after-crash-is-complete", complete)
 	}
 }
+
+// archive/tar's statUnix looks up owner names in the user database
+func vpModelStatUnix12(fi iofs.FileInfo, h *tar.Header, doNameLookups bool) error { return nil }
